@@ -17,6 +17,6 @@ Extraction "../ocaml/gen/kmodel.ml"
   plain_scale sharded_scale shard_ids eff_shards format_id valid_name mix reduce PRIMARY SECONDARY
   sem run empty_fs resolve children name_of inode_of fd_of set_inode set_names alloc_inode tick significant
   cache_get cache_touch cache_set cache_put cache_write_temp get_or_update ensure ro_get ro_touch
-  f_get f_touch f_set f_put f_temp_dir prune
+  f_get f_touch f_set f_put f_temp_dir prune builder_writer builder_reader
   client_set_path client_set_temp client_front_write client_populate client_judge chk_byteeq chk_panic chk_count chk_count_nf
   stage_path stage_temp bind spec run_crash settle slot finished stack_get_budget stack_touch_budget stack_write_budget.
